@@ -8,6 +8,31 @@ checks = {
    text="Explicit-state BFS over every operation sequence (writes of each shape, user/automatic snapshots, system-performed removals, mark-removed, reopen with preload, rebuild-style reload+UpdateLUNMap, revert) up to the stated depth on a real on-disk replica with hole punching on; in every reachable state every retained user snapshot is compared byte-for-byte with the reference model, both by an independent extent walk over the chain files and by copying the directory, reverting the copy with the real code and reading it.",
    note="Trusted: the reference model (ea/model.go), ext4 FIEMAP, in-process sparse.FoldFile standing for the sfold child. Bounds: 2-3 blocks, depth 5 (quick) / 7 (thorough), <=3 snapshots; holes are punched before the next event.",
    technique="explicit-state BFS with replay on the real replica.Server vs reference model"),
+
+ "C01": dict(engine=EA, design="§3 E-A, §4 C01",
+   text="Explicit-state BFS over every sequence of writes (15 shapes: aligned 1-3 blocks, sub-block at start/middle/end, spans with unaligned head/tail), reads, user/automatic snapshots, system-performed removals, reverts, close/reopen with and without preload and reload, with hole punching off and on, on 1-3 block volumes; after every path the live volume is read back (every 512-multiple (offset,length) pair on the last level) and compared with the reference model.",
+   note="Trusted: reference model, ext4 FIEMAP. Bounds: <=3 blocks, depth as reported in evidence (budgeted), <=4 snapshots. The controller's out-of-range clause is decided by engine E-B once built.",
+   technique="explicit-state BFS with replay on the real replica.Server vs reference model"),
+ "C10": dict(engine=EA, design="§3 E-A, §4 C10",
+   text="Explicit-state BFS over sequences of writes, mode flips RW/WO, SetRevisionCounter, close/open, reload, snapshot and reopen on a real replica; after every path the persisted revision counter equals the model's (+1 per write applied while RW, unchanged in WO, SetRevisionCounter only in RW) and is the same after close/reopen.",
+   note="Sequential histories only in this engine; concurrent writers (E-D) and crash points (E-C) are separate parts. Bounds: 1 block, depth 6/8.",
+   technique="explicit-state BFS with replay on the real replica.Server vs reference model"),
+ "C11": dict(engine=EA, design="§3 E-A, §4 C11",
+   text="(1) BFS over every chain of up to 5 (thorough 6) snapshots x user/auto x marked-removed x every checkpoint position, built with real operations; in every state the real GetDeleteCandidateChain must return only snapshots strictly between base and checkpoint that are not retained user snapshots and whose parent is not one. (2) BFS from three non-initial chains in which every deletion the cleaner itself would perform (each candidate the real filter returns, via prepare -> fold -> RemoveDiffDisk) is an event, interleaved with writes/snapshots/marks; after every path live data and every retained user snapshot are compared with the model (extent walk and revert-on-copy); head/latest/base deletion requests must be refused with the state unchanged.",
+   note="Trusted: reference model; sparse.FoldFile in-process stands for the sfold child. The REST precondition of user deletion (all RF replicas RW, checkpoint set) belongs to E-B/E-E.",
+   technique="explicit-state BFS with replay on the real replica.Server + real cleaner filter vs reference model"),
+ "C12": dict(engine=EA, design="§3 E-A, §4 C12",
+   text="Explicit-state BFS over management operations with valid and invalid arguments (snapshot with new/duplicate names, mark-removed, system removals, removal of head/latest/base/unknown through both entry points, removal in the wrong mode, revert to member/unknown, grow/shrink/garbage sizes, set-checkpoint member/unknown, reopen, reload) from the empty replica and from a 3-snapshot chain; after every path the chain must be one acyclic head->base path with data+meta files whose names/attributes/parents equal the model's, refused operations must leave the canonical state key unchanged, and close->reopen must reproduce chain, attributes, data and size.",
+   note="Bounds: 2 blocks, depth 5 / 4 from the non-initial root (thorough 6/5). Orphans left by reverts are tracked but not targeted.",
+   technique="explicit-state BFS with replay on the real replica.Server vs reference model"),
+ "C16": dict(engine=EA, design="§3 E-A, §4 C16",
+   text="Explicit-state BFS over writes (incl. into the added range), user/auto snapshots, grow by one block (up to twice), shrink / garbage / empty size requests (must be refused, key unchanged), reopen, revert to older smaller snapshots and removals, punching on and off; oracles: live data and every promised snapshot equal the model (old bytes unchanged, new range zeros and writable), size persists across reopen.",
+   note="Replica-level (Server.Resize). Controller.Resize ordering belongs to E-B. Bounds: 2-4 blocks, depth 5/7.",
+   technique="explicit-state BFS with replay on the real replica.Server vs reference model"),
+ "C17": dict(engine=EA, design="§3 E-A, §4 C17",
+   text="Explicit-state BFS over the replica's open/closed x mode x rebuilding state machine (close, open, set-mode RW/WO/junk, set-rebuilding, reload) with every Server operation attempted as an event in every reachable state: writes are acknowledged only when open and RW/WO, every I/O call on a closed replica fails, removal/replace/revision-counter updates are refused (state unchanged) unless RW, invalid modes and out-of-state rebuilding flags are refused.",
+   note="Lenient reading recorded in evidence: a write refused in INIT mode has already written its data (Replica.WriteAt checks the mode afterwards); acknowledgements are compared, not side effects of refused writes. REST action gating is checked by E-E.",
+   technique="explicit-state BFS with replay on the real replica.Server vs reference model"),
 }
 planned = {}
 ALL = ["C%02d" % i for i in range(1, 20)]
